@@ -9,6 +9,7 @@ import (
 	"fmt"
 	"runtime"
 	"strings"
+	"sync/atomic"
 	"time"
 
 	"kbverif/lib"
@@ -16,8 +17,9 @@ import (
 
 // an overlap schedule: spawn thread i with a revision, advance thread i by one engine call, or read
 type ostep struct {
-	kind  string // spawn | step | read
+	kind  string // spawn | step | finish | read | hold
 	id    int
+	other int // hold: the thread that runs while thread id is parked inside its batch, right before the engine Commit
 	rel   relRev
 	rkind string
 	limit int64
@@ -64,6 +66,7 @@ func runOverlap(id int, seed uint64, engine string, skipped []string, scratch st
 	}
 	defer closer()
 	s := lib.NewSched()
+	var armInner int32 // 1: the next engine Commit parks its thread (conditions staged, nothing applied yet)
 	kv := &lib.Wrap{KvStorage: inner, Before: func(kind string, key []byte) error {
 		if kind == "get" || kind == "batch" {
 			if ph := phaseOf(kind); ph != "" {
@@ -71,6 +74,11 @@ func runOverlap(id int, seed uint64, engine string, skipped []string, scratch st
 			}
 		}
 		return nil
+	}, CommitFault: func() (error, bool) {
+		if atomic.CompareAndSwapInt32(&armInner, 1, 0) {
+			s.Yield("inner")
+		}
+		return nil, false
 	}}
 	be, err := lib.CsNewBackend(kv, prefix, skipped, initRev)
 	if err != nil {
@@ -158,6 +166,88 @@ func runOverlap(id int, seed uint64, engine string, skipped []string, scratch st
 		outc["step-"+ph] = true
 		return advance(i, lib.App("CThread", lib.N(uint64(i)), ph), map[string]interface{}{"op": "thread performs", "thread": i, "call": ph})
 	}
+	// finishStep records the step of thread i that has just parked at p / finished
+	finishStep := func(i int, ph string, p string, done bool, j map[string]interface{}) {
+		th := threads[i]
+		label := lib.App("CThread", lib.N(uint64(i)), ph)
+		outc["step-"+ph] = true
+		if done {
+			th.done = true
+			outc["thread-"+cresCoq(th.err)] = true
+			j["finished"] = map[string]interface{}{"hdr": th.hdr, "err": th.err != nil}
+			record(label, lib.App("OCompact", lib.N(th.hdr), cresCoq(th.err)), j)
+			return
+		}
+		th.phase = p
+		record(label, "OWrite", j)
+	}
+	// hold: thread i, parked before a conditional write of the record, is advanced INTO its batch - the condition
+	// is staged - and parked again right before the engine Commit; thread o then runs as far as it gets. An engine
+	// whose batch owns the store until Commit (memkv) blocks o at its first call: i's write is atomic. On the other
+	// engines (and on a memkv that checks at staging but locks only in Commit) o proceeds; every step is recorded
+	// in the order the engine calls completed.
+	hold := func(i, o int) bool {
+		th, ot := threads[i], threads[o]
+		if th == nil || th.done || ot == nil || ot.done || (th.phase != "PhSetCommit" && th.phase != "PhRacePut") {
+			return true
+		}
+		if !strings.Contains(engine, "mem") {
+			// Badger and TiKV batches are optimistic transactions: a transaction held open across another writer's
+			// commit is aborted by the engine's conflict detection whatever the values are; the model's compare is on
+			// values. There the write is advanced in one piece.
+			return stepThread(i)
+		}
+		interleaved = true
+		ph := th.phase
+		atomic.StoreInt32(&armInner, 1)
+		p, done := s.Step(th.t, 10*time.Second)
+		atomic.StoreInt32(&armInner, 0)
+		if p == "<blocked>" {
+			res.fail = &lib.ImplFailure{CaseID: id, What: fmt.Sprintf("compaction thread %d blocked at %s", i, ph), Case: js}
+			return false
+		}
+		if done || p != "inner" { // no commit on this path (cannot happen after a park before BeginBatchWrite)
+			finishStep(i, ph, p, done, map[string]interface{}{"op": "thread performs", "thread": i, "call": ph})
+			return true
+		}
+		outc["held-in-batch"] = true
+		blocked := false
+		for !ot.done {
+			oph := ot.phase
+			p2, done2 := s.Step(ot.t, 400*time.Millisecond)
+			if p2 == "<blocked>" {
+				// the held batch owns the store: release it, then the blocked call completes
+				blocked = true
+				outc["other-blocked"] = true
+				p1, done1 := s.Step(th.t, 10*time.Second)
+				if p1 == "<blocked>" {
+					res.fail = &lib.ImplFailure{CaseID: id, What: fmt.Sprintf("compaction thread %d blocked inside its batch", i), Case: js}
+					return false
+				}
+				finishStep(i, ph, p1, done1, map[string]interface{}{"op": "thread performs", "thread": i, "call": ph,
+					"held_before_commit": true, "meanwhile": fmt.Sprintf("thread %d blocked at %s until the commit", o, oph)})
+				p2, done2 = s.Wait(ot.t, 10*time.Second)
+				if p2 == "<blocked>" {
+					res.fail = &lib.ImplFailure{CaseID: id, What: fmt.Sprintf("compaction thread %d still blocked at %s after the commit", o, oph), Case: js}
+					return false
+				}
+				finishStep(o, oph, p2, done2, map[string]interface{}{"op": "thread performs", "thread": o, "call": oph})
+				break
+			}
+			outc["other-ran-during-batch"] = true
+			finishStep(o, oph, p2, done2, map[string]interface{}{"op": "thread performs", "thread": o, "call": oph,
+				"while": fmt.Sprintf("thread %d is parked inside its batch before Commit", i)})
+		}
+		if !blocked {
+			p1, done1 := s.Step(th.t, 10*time.Second)
+			if p1 == "<blocked>" {
+				res.fail = &lib.ImplFailure{CaseID: id, What: fmt.Sprintf("compaction thread %d blocked inside its batch", i), Case: js}
+				return false
+			}
+			finishStep(i, ph, p1, done1, map[string]interface{}{"op": "thread performs", "thread": i, "call": ph, "held_before_commit": true})
+		}
+		return true
+	}
 	read := func(kind string, rev uint64, limit int64) {
 		isErr, op := doRead(be, sc, kind, rev, limit)
 		if isErr {
@@ -191,6 +281,10 @@ func runOverlap(id int, seed uint64, engine string, skipped []string, scratch st
 						return
 					}
 				}
+			case "hold":
+				if !hold(st.id, st.other) {
+					return
+				}
 			case "read":
 				read(st.rkind, resolve(st.rel, cur, floor, last), st.limit)
 			}
@@ -210,7 +304,18 @@ func runOverlap(id int, seed uint64, engine string, skipped []string, scratch st
 				}
 				next++
 			case x < 8 && len(a) > 0:
-				if !stepThread(a[rnd.Intn(len(a))]) {
+				i := a[rnd.Intn(len(a))]
+				if ph := threads[i].phase; len(a) > 1 && (ph == "PhSetCommit" || ph == "PhRacePut") && rnd.Intn(3) == 0 {
+					o := a[rnd.Intn(len(a))]
+					for o == i {
+						o = a[rnd.Intn(len(a))]
+					}
+					if !hold(i, o) {
+						return
+					}
+					continue
+				}
+				if !stepThread(i) {
 					return
 				}
 			case x == 8:
@@ -271,5 +376,18 @@ func overlapCorpus() [][]ostep {
 		{{kind: "spawn", id: 1, rel: abs(103)}, {kind: "step", id: 1}, {kind: "step", id: 1}, {kind: "step", id: 1},
 			{kind: "spawn", id: 2, rel: abs(111)}, {kind: "finish", id: 2}, {kind: "read", rkind: "list", rel: abs(105)},
 			{kind: "finish", id: 1}, {kind: "read", rkind: "list", rel: abs(105)}},
+		// the older request has staged its conditional write of the record and is parked right before the engine Commit;
+		// the newer one runs to completion (or is blocked by the engine until the commit); reads in between
+		{{kind: "spawn", id: 1, rel: abs(103)}, {kind: "step", id: 1}, {kind: "spawn", id: 2, rel: abs(111)}, {kind: "hold", id: 1, other: 2},
+			{kind: "read", rkind: "list", rel: abs(105)}, {kind: "finish", id: 2}, {kind: "finish", id: 1},
+			{kind: "read", rkind: "list", rel: abs(105), limit: 2}, {kind: "read", rkind: "stream", rel: abs(110)}},
+		// the same on top of an earlier floor (the staged write is a compare-and-swap on the value read)
+		{{kind: "spawn", id: 3, rel: abs(102)}, {kind: "finish", id: 3}, {kind: "spawn", id: 1, rel: abs(104)}, {kind: "step", id: 1},
+			{kind: "spawn", id: 2, rel: abs(110)}, {kind: "hold", id: 1, other: 2}, {kind: "read", rkind: "list", rel: abs(107)},
+			{kind: "finish", id: 2}, {kind: "finish", id: 1}, {kind: "read", rkind: "scancount", rel: abs(107)}, {kind: "read", rkind: "list", rel: abs(107)}},
+		// ... and inside checkCompactRace: the older compaction has staged its put of the record, the newer request completes
+		{{kind: "spawn", id: 1, rel: abs(103)}, {kind: "step", id: 1}, {kind: "step", id: 1}, {kind: "step", id: 1},
+			{kind: "spawn", id: 2, rel: abs(111)}, {kind: "hold", id: 1, other: 2}, {kind: "read", rkind: "list", rel: abs(105)},
+			{kind: "finish", id: 2}, {kind: "finish", id: 1}, {kind: "read", rkind: "list", rel: abs(105)}},
 	}
 }
